@@ -25,13 +25,6 @@ CORPUS = os.path.join(common.VERIF, "corpus", "SlotG")
 SAN_ENV = {"ASAN_OPTIONS": "detect_leaks=1:abort_on_error=0:halt_on_error=1:exitcode=23:symbolize=0",
            "UBSAN_OPTIONS": "halt_on_error=1:print_stacktrace=0", "LSAN_OPTIONS": "exitcode=23"}
 FOCI = ("C06", "C12", "C04", "C15")
-KNOWN_F11 = ("F11 slot_base::operator=(const slot_base& src) reads src.blocked_ after `delete rep_`; when the old "
-             "functor was the last owner of the object holding src, src is already destroyed "
-             "(heap-use-after-free, slot_base.cc:203); corpus/SlotG/finding_F11_*.prog")
-KNOWN_F10 = ("F10 slot_base::operator= hands the old representation's parent to the new one before deleting the "
-            "old one; when that deletion destroys the parent (the old functor owns it) the new representation keeps "
-            "a dangling parent_ (heap-use-after-free in the next disconnect); corpus/SlotG/finding_F10_*.prog")
-
 RULE = ("a program is non-trivial when at least three operations are performed (not refused) and it contains a "
         "copy/move/assignment of a slot variable or a destruction (delS/delT/notifyT/clrS) or a connection use")
 
@@ -128,6 +121,19 @@ class Gen:
         self.S.add(v)
         return v
 
+    def xfer(self, how, d, x, p=0.85):
+        """a copy/move/assignment `how` in {cp, mv, asg, masg} of x into d, surrounded (with probability p) by the
+        queries the trace monitor needs: emptiness and flag of the source before, of both afterwards"""
+        probe = self.r.chance(p)
+        if probe:
+            self.emit("emptyS? S%d" % x)
+            self.emit("blockedS? S%d" % x)
+        self.emit("%sS S%d S%d" % (how, d, x))
+        if probe:
+            self.emit(("emptyS? S%d" if self.r.chance(0.7) else "boolS? S%d") % x)
+            for v in self.r.shuffle([x, d]):
+                self.emit("blockedS? S%d" % v)
+
     def probes(self, names):
         for v in names:
             q = self.r.weighted([("blockedS?", 4), ("emptyS?", 3), ("boolS?", 1), ("parentS?", 2), ("callS", 3)])
@@ -152,11 +158,11 @@ class Gen:
                 self.mk(d, kinds=[("fn", 4), ("mem", 2)])
             if self.r.chance(0.5):
                 self.emit("blockS S%d %d" % (d, self.r.below(2)))
-            self.emit("%sS S%d S%d" % (how, d, a))
+            self.xfer(how, d, a)
         else:
             if d in self.S:
                 self.emit("delS S%d" % d)
-            self.emit("%sS S%d S%d" % (how, d, a))
+            self.xfer(how, d, a)
             self.S.add(d)
         for v in self.r.shuffle([a, d]):
             self.emit("blockedS? S%d" % v)
@@ -275,6 +281,7 @@ class Gen:
         outer = self.s_new()
         self.emit("mkS S%d sref:%d:S%d" % (outer, self.fid(), inner))
         self.S.add(outer)
+        self.emit("parentS? S%d" % inner)
         copies = []
         for _ in range(1 + self.r.below(2)):
             j = self.s_new()
@@ -301,9 +308,20 @@ class Gen:
         for v in [outer] + copies:
             self.emit("emptyS? S%d" % v)
 
-    def t_xparent_near(self):
-        """the neighbourhood of finding F10: a parented variable whose functor owns something"""
-        self.tags.add("xparent-near")
+    def t_parent_exchange(self):
+        """assignments whose deletion of the old representation destroys that representation's parent (the
+        situations of the fixed findings F10/F11): a self-referring slot, a parented variable whose functor owns"""
+        self.tags.add("parent-exchange")
+        if self.r.chance(0.4):
+            a = self.mk(kinds=[("fn", 3), ("mem", 1)])
+            self.emit("setS S%d sref:%d:S%d" % (a, self.fid(), a))
+            if self.r.chance(0.5):
+                self.emit("parentS? S%d" % a)
+            self.emit(self.r.choice(["setS S%d fn:%d" % (a, self.fid()), "asgS S%d S%d" % (a, self.s_any()),
+                                     "masgS S%d S%d" % (a, self.s_any())]))
+            self.emit("parentS? S%d" % a)
+            self.emit(self.r.choice(["discS S%d", "clrS S%d", "delS S%d"]) % a)
+            return
         a = self.mk(kinds=[("fn", 1)])
         b = self.s_new()
         self.emit("mkS S%d sref:%d:S%d" % (b, self.fid(), a))
@@ -366,10 +384,10 @@ class Gen:
             self.mk()
         elif k in ("cp", "mv"):
             j = self.s_new()
-            self.emit("%sS S%d S%d" % (k, j, self.s_any()))
+            self.xfer(k, j, self.s_any(), 0.6 if self.focus in ("C12", "C15") else 0.2)
             self.S.add(j)
         elif k in ("asg", "masg"):
-            self.emit("%sS S%d S%d" % (k, self.s_any(), self.s_any()))
+            self.xfer(k, self.s_any(), self.s_any(), 0.6 if self.focus in ("C12", "C15") else 0.2)
         elif k == "set":
             d = self.s_any()
             self.emit("setS S%d %s" % (d, self.spec(dst=d)))
@@ -420,7 +438,7 @@ class Gen:
         for _ in range(n_tpl):
             k = self.r.weighted(tw)
             {"conn": self.t_conn_move, "selfown": self.t_self_own, "chain": self.t_own_chain,
-             "parented": self.t_parented_move, "xp": self.t_xparent_near, "outer": self.t_outer_copy, "none": self.rand_op}[k]()
+             "parented": self.t_parented_move, "xp": self.t_parent_exchange, "outer": self.t_outer_copy, "none": self.rand_op}[k]()
             for _ in range(self.r.below(5)):
                 self.rand_op()
         # closing probes: everything observable about what is left
@@ -542,25 +560,47 @@ def run_both(exe, progs, jobs=None):
 # --------------------------------------------------------------------------------------
 
 _OPLINE = re.compile(r"^0 (\S+)((?: \S+)*) => (\S+)$")
+REFUSALS = ("dead", "exists", "pinned", "owned", "norep", "badop")
+# operations that change neither emptiness nor the representation of any slot variable
+_NEUTRAL = {"blockedS?", "emptyS?", "boolS?", "parentS?", "callS", "connected?", "emptyC?", "blockedC?", "live?",
+            "blockS", "unblockS", "blockC", "unblockC", "connS", "newC", "cpC", "asgC", "delC"}
 
 
 def monitor(prog, lines):
-    """returns a list of violated clauses (strings).  Knows nothing of representations, parents, lists:
-      B1  block/unblock return the previous state; blockedS? reports the state last set, as long as no operation
-          that may legitimately change that variable's flag (assignment to it, move from it, creation, any
-          block through a connection) came in between ("affect only that slot")
-      B2  a slot known to be blocked logs no call and returns 0; so does a slot just reported empty
-      K1  once the variable a connection was made for has been destroyed by name, the connection and every copy
-          report connected? 0 / blockedC? 0 until they are re-assigned
-      A1  without owning functors nothing is left alive after teardown (live=0 slots=0)
+    """The property statements evaluated on the real trace alone — no representations, parents, lists, no model.
+    Per slot variable an *expected* blocked flag is kept, derived from the statements only:
+
+      C12  "block()/unblock() on a slot … return the previous state and affect only that slot":
+           blockS/unblockS return the expected flag and set it; **nothing else** changes a variable's flag except
+           an operation whose destination (or moved-from source) it is (B1).
+      C15  "a copy is an independent slot with its own … blocking state": cpS/asgS from a source *observed
+           non-empty* give the destination the source's flag, the source is untouched (V1); "moving from a slot
+           leaves the source empty and the destination behaving as the source did": mvS/masgS from a source observed
+           non-empty give the destination the source's flag; afterwards the source is either observed empty (its
+           flag is then not judged) or — the library copies instead of moving when the source is referred to —
+           observed to still have its functor, and then it is completely unchanged *including its flag* (V2).
+           A default-constructed slot, a slot made from a functor and a slot that was assigned a functor (`setS`,
+           assignment from a fresh slot) are unblocked.
+           What is NOT relied on: the flag after a copy/assignment from an empty source and after `clrS`
+           (the statements do not fix it) — the expectation is dropped there.
+      B2   a slot expected to be blocked, or just observed empty, logs no call and returns 0.
+      P1   C15 "destroying, disconnecting … or reassigning one [copy] never affects the other": while only copies
+           made after `parentS? I => 1` was observed are destroyed / emptied / disconnected / given a plain functor
+           (and nothing else but queries, blocking and connection bookkeeping happens), `parentS? I` stays 1.
+      K1   C04: once the variable a connection was made for has been destroyed by name, the connection and every
+           copy report connected? 0 / blockedC? 0 / blockC 0 until they are re-assigned.
+      A1   C06/C07: without owning functors nothing is left alive after teardown (live=0 slots=0).
     """
     bad = []
-    flag = {}            # slot name -> known blocked flag
+    flag = {}            # slot name -> expected blocked flag
+    nonempty = {}        # slot name -> observed emptiness (False = non-empty), valid until the next non-neutral op
+    pending = {}         # moved-from source -> its flag before the move, until its emptiness is observed
     bound = {}           # connection name -> slot name it was made for (while certain)
     gone = set()         # connection names whose variable was destroyed by name
-    just_empty = None
+    watch = {}           # inner slot name -> trace index of the first `parentS? => 1` of the current window
+    born = {}            # slot name -> trace index at which its present content was made as a copy / harmless new
     calls = 0
-    for ln in lines:
+    for idx, ln in enumerate(lines):
         if re.match(r"^\d+ call f\d+ \d+$", ln):
             calls += 1
             continue
@@ -568,51 +608,114 @@ def monitor(prog, lines):
         if not m:
             if ln.startswith("0 final "):
                 if "own:" not in prog and not ln.startswith("0 final live=0 slots=0"):
-                    bad.append("A1: no owning functor in the program but teardown left something: " + ln)
+                    bad.append("A1 (C06/C07): no owning functor in the program but teardown left something: " + ln)
             continue
         op, args, res = m.group(1), m.group(2).split(), m.group(3)
         ncalls, calls = calls, 0
-        je, just_empty = just_empty, None
-        refused = res in ("dead", "exists", "pinned", "owned", "norep", "xparent", "badop")
-        if refused:
+        if res in REFUSALS:
             continue
-        if op in ("blockS", "unblockS", "blockedS?") and args:
+        # ---- P1: is this operation harmless for the parent link of a watched variable?
+        if op not in _NEUTRAL:
+            for inner in list(watch):
+                t0 = watch[inner]
+                a0 = args[0] if args else None
+                fresh = a0 is not None and a0 != inner and born.get(a0, -1) > t0
+                ok = False
+                if op in ("delS", "clrS", "discS") and fresh:
+                    ok = True
+                elif op == "setS" and fresh and args[1].startswith(("fn:", "mem:")):
+                    ok = True
+                elif op == "cpS" and a0 != inner:
+                    ok = True
+                elif op == "asgS" and fresh and args[0] != args[1]:
+                    ok = True
+                elif op == "mkS0" and a0 != inner:
+                    ok = True
+                elif op == "mkS" and a0 != inner and args[1].startswith(("fn:", "mem:")):
+                    ok = True
+                if not ok:
+                    del watch[inner]
+        # ---- per operation
+        if op in ("blockS", "unblockS", "blockedS?"):
             v = args[0]
+            pending.pop(v, None)                    # not judged: its emptiness was not observed first
             if v in flag and res != str(flag[v]):
-                bad.append("B1: %s reports %s, the state last set was %d" % (ln, res, flag[v]))
-            if op == "blockS":
-                flag[v] = int(args[1])
-            elif op == "unblockS":
-                flag[v] = 0
+                what = "returns" if op != "blockedS?" else "reports"
+                bad.append("B1/V (C12, C15): `%s` %s %s but the blocking state of %s must be %d: nothing but "
+                           "block/unblock and assignments to that variable may change it"
+                           % (ln[2:], what, res, v, flag[v]))
+            flag[v] = int(args[1]) if op == "blockS" else 0 if op == "unblockS" else int(res)
+        elif op in ("emptyS?", "boolS?"):
+            v = args[0]
+            if op == "emptyS?":
+                nonempty[v] = (res == "1")          # value: "is empty"
+                still = (res == "0")
             else:
-                flag[v] = int(res)
+                if res == "0":
+                    nonempty[v] = True
+                still = (res == "1")
+            if v in pending:
+                fb = pending.pop(v)
+                if still:
+                    flag[v] = fb                    # V2: not moved from after all: completely unchanged
+                else:
+                    flag.pop(v, None)
+        elif op == "parentS?":
+            v = args[0]
+            if res == "1":
+                watch.setdefault(v, idx)
+            else:
+                if v in watch:
+                    bad.append("P1 (C15 independence of copies): `%s` — %s had its parent link (trace line %d) and "
+                               "since then only copies made afterwards were destroyed, emptied, disconnected or "
+                               "reassigned" % (ln[2:], v, watch[v] + 1))
+                    del watch[v]
         elif op == "callS":
             v = args[0]
-            if (flag.get(v) == 1 or je == v) and (ncalls or res != "0"):
-                bad.append("B2: %s: a blocked or empty slot was invoked (%d call lines)" % (ln, ncalls))
-        elif op == "emptyS?":
-            if res == "1":
-                just_empty = args[0]
+            if (flag.get(v) == 1 or nonempty.get(v) is True) and (ncalls or res != "0"):
+                bad.append("B2 (C12): `%s`: a blocked or empty slot was invoked (%d call lines)" % (ln[2:], ncalls))
         elif op in ("mkS", "mkS0", "setS"):
             flag[args[0]] = 0
-        elif op in ("cpS", "mvS"):
+            pending.pop(args[0], None)
+            born[args[0]] = idx if (op == "mkS0" or args[1].startswith(("fn:", "mem:"))) and op != "setS" else -1
+        elif op in ("cpS", "asgS", "mvS", "masgS"):
+            d, x = args[0], args[1]
+            if d != x:
+                src_ok = nonempty.get(x) is False and x in flag and x not in pending
+                fx = flag.get(x)
+                pending.pop(d, None)
+                if src_ok:
+                    flag[d] = fx
+                else:
+                    flag.pop(d, None)
+                if op in ("mvS", "masgS"):
+                    flag.pop(x, None)
+                    if src_ok:
+                        pending[x] = fx
+                    born[d] = -1
+                else:
+                    born[d] = idx
+        elif op == "clrS":
             flag.pop(args[0], None)
-            if op == "mvS":
-                flag.pop(args[1], None)
-        elif op in ("asgS", "masgS", "clrS"):
-            flag.pop(args[0], None)
-            if op == "masgS":
-                flag.pop(args[1], None)
+            pending.pop(args[0], None)
         elif op == "delS":
-            flag.pop(args[0], None)
-            for c, v in list(bound.items()):
-                if v == args[0]:
+            v = args[0]
+            flag.pop(v, None)
+            pending.pop(v, None)
+            born.pop(v, None)
+            for c, w in list(bound.items()):
+                if w == v:
                     gone.add(c)
                     del bound[c]
         elif op in ("blockC", "unblockC"):
-            flag.clear()
             if args[0] in gone and res != "0":
-                bad.append("K1: %s after the variable was destroyed" % ln)
+                bad.append("K1 (C04): `%s` after the variable was destroyed" % ln[2:])
+            if args[0] in bound:
+                flag.pop(bound[args[0]], None)
+                pending.pop(bound[args[0]], None)
+            else:
+                flag.clear()
+                pending.clear()
         elif op == "connS":
             bound[args[0]] = args[1]
             gone.discard(args[0])
@@ -637,30 +740,17 @@ def monitor(prog, lines):
             bound.pop(args[0], None)
         elif op in ("connected?", "blockedC?"):
             if args[0] in gone and res != "0":
-                bad.append("K1: %s after the variable was destroyed" % ln)
+                bad.append("K1 (C04): `%s` after the variable was destroyed" % ln[2:])
         elif op == "emptyC?":
             if args[0] in gone and res != "1":
-                bad.append("K1: %s after the variable was destroyed" % ln)
+                bad.append("K1 (C04): `%s` after the variable was destroyed" % ln[2:])
+        if op not in _NEUTRAL:
+            nonempty.clear()
     return bad
 
 
-def _own_aware(prog):
-    return "own:" in prog
-
-
 def monitor_checked(prog, lines):
-    """variables owned by a functor die inside other operations and their names may be re-created: B1 would then
-    compare two different variables.  With owning functors in the program only B2-empty, K1 and A1 are evaluated
-    on names that are never the target of an `own:` spec."""
-    if not _own_aware(prog):
-        return monitor(prog, lines)
-    owned_names = set(re.findall(r"own:\d+:(S\d+)", prog))
-    out = []
-    for b in monitor(prog, lines):
-        if any(re.search(r"\b%s\b" % re.escape(n), b) for n in owned_names):
-            continue
-        out.append(b)
-    return out
+    return monitor(prog, lines)
 
 
 # --------------------------------------------------------------------------------------
@@ -669,23 +759,27 @@ def monitor_checked(prog, lines):
 
 def classify(prog, r):
     """-> (kind, detail) with kind in None | 'monitor' | 'disagree'"""
+    tail = " (program: %s)" % "; ".join(l for l in prog.split("\n") if l and not l.startswith("#"))[:400]
     if r["crash"]:
-        return "monitor", "the real library fails under the sanitizers: " + r["crash"]
+        return "monitor", "slot-variable graph: the real library fails under the sanitizers: " + r["crash"] + tail
     mon = monitor_checked(prog, r["impl"])
     if mon:
-        return "monitor", "; ".join(mon[:3])
+        return "monitor", "slot-variable graph: " + mon[0] + tail
     if r["impl"] != r["model"]:
         for k, (a, b) in enumerate(zip(r["impl"] + ["<end>"], r["model"] + ["<end>"])):
             if a != b:
-                return "disagree", "first difference at trace line %d: impl `%s` / model `%s`" % (k + 1, a, b)
-        return "disagree", "trace lengths differ"
+                return "disagree", ("slot-variable graph: implementation and model differ at trace line %d: impl `%s` "
+                                    "model `%s`" % (k + 1, a, b)) + tail
+        return "disagree", "slot-variable graph: implementation and model traces differ in length" + tail
     return None, ""
 
 
-def shrink(exe, prog, kind, budget=12):
+def shrink(exe, prog, kind, budget=12, deadline=None):
     """greedy line removal (all single-line removals evaluated in one parallel batch per round)"""
     lines = [l for l in prog.split("\n") if l.strip()]
     for _ in range(budget):
+        if deadline is not None and time.time() > deadline:
+            break
         cands = []
         # larger chunks first, then single lines
         n = len(lines)
@@ -714,7 +808,7 @@ def nontrivial(lines):
         m = _OPLINE.match(ln)
         if not m:
             continue
-        if m.group(3) in ("dead", "exists", "pinned", "owned", "norep", "xparent", "badop"):
+        if m.group(3) in ("dead", "exists", "pinned", "owned", "norep", "badop"):
             continue
         done += 1
         if m.group(1) in ("cpS", "mvS", "asgS", "masgS", "setS", "clrS", "delS", "delT", "notifyT", "connS",
@@ -749,7 +843,7 @@ def stats(progs, results, tags):
             feats["nested invocation through sref"] += 1
         if depth >= 4:
             feats["invocation depth limit reached"] += 1
-        for rr in ("pinned", "owned", "xparent", "norep"):
+        for rr in ("pinned", "owned", "norep"):
             if any(x[1] == rr for x in seen):
                 feats["program with a `%s` refusal" % rr] += 1
         fin = r["model"][-1] if r["model"] else ""
@@ -811,15 +905,7 @@ def stage(ctx, focus="C06"):
     fails = []
     distinct = set()
     for name, prog, r in zip(names, progs, results):
-        is_finding = os.path.basename(name).startswith("finding_")
         kind, detail = classify(prog, r)
-        if is_finding:
-            # replay of a recorded finding (runs with the refusal switched off): expected to fail on the real side
-            if kind == "monitor":
-                out["monitor_failures"].append({"input": prog, "impl": "\n".join(r["impl"][-6:]), "model": "",
-                                                "detail": detail, "name": name,
-                                                "known": KNOWN_F11 if "F11" in name else KNOWN_F10})
-            continue
         if r["model"] and nontrivial(r["model"]) and prog not in distinct:
             distinct.add(prog)
         if kind:
@@ -834,12 +920,12 @@ def stage(ctx, focus="C06"):
         small = prog
         try:
             if not name.startswith("corpus/") or len(prog.split("\n")) > 6:
-                small = shrink(exe, prog, kind)
+                small = shrink(exe, prog, kind, deadline=t0 + (240 if ctx.thorough else 30))
         except Exception as e:  # shrinking is best effort
             out["infra_errors"].append("shrink failed: %r" % (e,))
         rs = run_both(exe, [small])[0]
         k2, d2 = classify(small, rs)
-        case = {"input": small, "original": prog if small != prog else "", "name": name, "focus": focus,
+        case = {"input": small, "shrunk_from": prog if small != prog else "", "name": name, "focus": focus,
                 "impl": "\n".join(rs["impl"]) + (("\n<" + rs["crash"] + ">") if rs["crash"] else ""),
                 "model": "\n".join(rs["model"]), "detail": d2 or detail}
         (out["monitor_failures"] if kind == "monitor" else out["disagreements"]).append(case)
